@@ -1572,9 +1572,43 @@ impl Run {
 /// Generate and run one history.
 fn run_history(family: &'static str, index: u64, r: &mut Rng, named_beyond: bool, max_len: usize) {
     let prof = Profile::draw(r, named_beyond, max_len);
+    run_history_with(family, index, r, prof, false)
+}
+
+/// Large graphs: the generator is steered towards 70-150 vertices (ids and slot tables beyond
+/// 64, the vector backend's automatic packing threshold `holes * 10 > slots` reached by
+/// churn on a big table, long hole lists).
+fn run_history_large(family: &'static str, index: u64, r: &mut Rng) {
+    let prof = Profile { cap: *r.pick(&[70usize, 100, 150]), named_beyond: false, churn: *r.pick(&[1.0, 3.0, 5.0]), len: r.range(250, 600) as usize };
+    run_history_with(family, index, r, prof, true)
+}
+
+fn run_history_with(family: &'static str, index: u64, r: &mut Rng, prof: Profile, bulk: bool) {
     let mut run = Run::new(family, index, format!("{prof:?}"));
     let mut next_m: M = 0;
     let mut ended_by = "length";
+    if bulk {
+        // bulk phase: `cap` spiders and a sparse set of edges, fed through the same executor
+        // (every step is compared like any other)
+        let n0 = prof.cap;
+        let mut ops = vec![];
+        for _ in 0..n0 {
+            let ty = if r.chance(0.6) { VType::Z } else { VType::X };
+            ops.push(Op::AddVertexWithPhase { ty, ph: gen_phase(r), m: next_m });
+            next_m += 1;
+        }
+        for i in 1..n0 {
+            let j = i - 1 - r.below(3.min(i));
+            ops.push(Op::AddEdgeWithType { s: j as M, t: i as M, e: gen_etype(r) });
+        }
+        for op in ops {
+            if !matches!(run.feed(op), Feed::Continue) {
+                run.finish("bulk-phase-stopped");
+                return;
+            }
+        }
+        run.applied = 0;
+    }
     'hist: while run.applied < prof.len {
         let mut ops = gen_ops(r, &run.ex.model, &run.ex.named_view(), &prof, &mut next_m);
         if run.applied + ops.len() >= prof.len && r.chance(0.3) {
@@ -1762,5 +1796,6 @@ pub fn run() {
     let (n, max_len) = t.pick((12_000usize, 400usize), (400_000usize, 400usize));
     par_cases("hist-core", n, move |r, i| run_history("hist-core", i, r, false, max_len));
     par_cases("hist-named", n, move |r, i| run_history("hist-named", i, r, true, max_len));
+    par_cases("hist-large", t.pick(60usize, 3_000usize), move |r, i| run_history_large("hist-large", i, r));
     c.extra("exhaustive", json!(false));
 }
